@@ -87,6 +87,11 @@ def cases(tier, seed):
             for k in range(2 if tier == "quick" else 4):
                 out.append({"kind": "run", "cls": solver, "solver": solver, "idx": idx, "seed": seed, "maxd": maxd, "nseeds": 1, "dims": list(dims)})
                 idx += 1
+    for dims in ([(40, 30), (36, 24), (30, 22), (24, 16)] if tier == "quick" else [(20, 14), (24, 16), (30, 20), (40, 30), (36, 24), (30, 22), (48, 40), (26, 13)]):
+        for solver in ("rsp_column_spd", "hybrid"):
+            out.append({"kind": "run", "cls": solver + ":wide_block", "solver": solver, "idx": idx, "seed": seed, "maxd": maxd, "nseeds": 1, "dims": list(dims),
+                        "wide_block": True})
+            idx += 1
     for st_ in ("herm_pd", "nearly_herm_pd", "nearly_herm_pd", "diag", "upper_tri", "unitary_scaled", "real_only", "zero_row_tall"):
         for solver in ("rsp_column_qr", "rsp_column_spd", "rsp_row", "rsp_compute", "hybrid", "cgne"):
             for k in range(2 if tier == "quick" else 8):
@@ -222,9 +227,19 @@ def run_case(spec, ctx, R):
             tol = cfg["tol"]
     else:
         cfg = {"tol": tol, "max_iter": int(rng.choice([1, 2, 3, 4, 5, 6, 8, 10, 12, 16, 24, 500, 500, 500, 500])), "preconditioner_rank": int(rng.choice([0, 0, max(1, N // 2)]))}
+    if spec.get("wide_block"):
+        # strictly tall input, block of 12 .. 16 columns, the SPD micro-solver, tight tolerance, run to convergence: the inner conjugate-gradient
+        # solves then do real work (small blocks fall back to the direct inverse), and what they leave in the left null space of A is visible
+        # only in the distance to the pseudoinverse
+        tol = 1e-8
+        if solver.startswith("rsp"):
+            cfg.update(block_size=min(N, 16), max_iter=400, tol=tol, column_solver="spd")
+        elif solver == "hybrid":
+            cfg.update(r=min(N, 16), max_iter=200, tol=tol, column_solver="spd", T=5, p=4)
+        ctx.hit("config:wide_block_spd")
     if spec.get("structure"):
         # structured inputs are run to convergence at a tight tolerance (a run that does not converge says nothing about what is returned)
-        tol = [1e-8, 1e-10, 1e-6][spec["idx"] % 3]
+        tol = [1e-8, 1e-7, 1e-6][spec["idx"] % 3]         # the property covers tolerances 1e-3 .. 1e-8
         cfg["tol"] = tol
         if solver.startswith("rsp"):
             cfg.update(max_iter=400, block_size=int(rng.integers(max(1, N // 2), N + 1)))
